@@ -121,8 +121,21 @@ def run (ctx):
       for ok, why, lines in res:
         ctx.ob('R-PROGRESS', f, "iteration path %s makes progress" % _sig(lines), ok, why if ok else "non-progress possible (lines %s): %s" % (lines, why), (lof, st), 'D1', path=lines)
       # element length bounded by what is left of the declared list
-      bound = any(isinstance(n_.ast, ast.Compare) and 'len(b) - offset' in norm(n_.ast) and n_.kind == 'cond' for n_ in g.loop_body_nodes(h))
-      ctx.ob('R-DOM', f, "an element's declared length is checked against the bytes that are left", bound, "(len(b) - offset) < l raises", (lof, st), 'D4')
+      # a comparison over  len(b) - cursor - size  in any arrangement (the size being what the element header declared)
+      bound = False; seen_len = False
+      for n_ in g.loop_body_nodes(h):
+        if n_.kind != 'cond' or not isinstance(n_.ast, ast.Compare) or len(n_.ast.ops) != 1: continue
+        if 'len(b)' in norm(n_.ast): seen_len = True
+        a_ = q.lin_terms(n_.ast.left); b_ = q.lin_terms(n_.ast.comparators[0])
+        if a_ is None or b_ is None or not isinstance(n_.ast.ops[0], (ast.Lt, ast.LtE, ast.Gt, ast.GtE)): continue
+        d_ = dict(a_[0])
+        for k_, v_ in b_[0].items():
+          d_[k_] = d_.get(k_, 0) - v_
+          if d_[k_] == 0: del d_[k_]
+        if len(d_) == 3 and 'len(b)' in d_ and 'offset' in d_ and d_['len(b)'] == -d_['offset'] and all(v_ == d_['offset'] for k_, v_ in d_.items() if k_ != 'len(b)'):
+          bound = True
+      if not bound and seen_len: bound = None
+      ctx.ob('R-DOM', f, "an element's declared length is checked against the bytes that are left", bound, "a comparison of len(b) - offset with the declared length guards the element" if bound else "no such comparison in the loop", (lof, st), 'D4')
   for cls_name in ('ofp_queue_get_config_reply', 'ofp_stats_reply'):
     c = repo.cls(LOF, cls_name); f = c.methods.get('unpack')
     if f is None: raise AnalysisError("%s.unpack vanished" % cls_name)
@@ -185,6 +198,24 @@ def run (ctx):
   # version check -> connection dropped
   vr = [n for n in g.nodes if n.kind == 'return' and isinstance(n.ast.value, ast.Constant) and n.ast.value.value is False and any('OFP_VERSION' in f_ for f_ in q.fact_strs(g, n))]
   ctx.ob('R-EFFECT', f, "a wrong protocol version drops the connection", bool(vr), "return False under version mismatch", f, 'D2')
+  # code that runs inside Connection.read() (the per-message handlers) must leave the socket object alone: read() keeps
+  # returning True, so the task keeps the connection in its select list - with a closed descriptor (fileno -1) the next
+  # Select raises in the hub and no connection is served any more.  Handlers give up a connection with disconnect() (shutdown:
+  # the next read sees end-of-file and the task drops it)
+  ofm_ = repo.mod(OF); n_h = 0
+  for cls_ in ofm_.classes.values():
+    for f_ in cls_.methods.values():
+      if not (f_.name.startswith('handle_') or f_.name == '_finish_connecting'): continue
+      ps_ = f_.params
+      cp_ = ps_[0] if ps_ and ps_[0] not in ('self', 'cls') else (ps_[1] if len(ps_) > 1 else None)
+      if cp_ is None: continue
+      n_h += 1
+      for c_ in calls_in(f_.node, nested=True):
+        if call_name(c_) == 'close' and isinstance(c_.func, ast.Attribute) and norm(c_.func.value) in (cp_, cp_ + '.sock'):
+          ctx.bad('R-OWN', f_, "a message handler does not close the connection's socket (`%s`)" % norm(c_)[:40],
+                  "`%s` runs inside Connection.read(), which still returns True: OpenFlow_01_Task keeps the closed connection in the list it selects on, the next Select fails on file descriptor -1 "
+                  "and the select hub's thread dies - one peer that fails the handshake (e.g. a barrier reply with a wrong xid) stops service for every connection; handlers use disconnect()" % norm(c_)[:40], (ofm_, c_), 'D2')
+  ctx.floor('message handlers scanned for socket closes', n_h, 10)
   # ---- D3 switch containment ---------------------------------------------------------------------
   dr = q.find_method(repo, iow, '_do_recv', 'C10'); ctx.analysed(dr)
   g = q.cfg_of(dr)
